@@ -49,6 +49,15 @@ pub fn catalogue(tier: Tier) -> Vec<(Spec, u32)> {
                 v.push((p3_events(*t, m.clone(), variant), d));
             }
         }
+        // back-pressure: event bursts against a subscriber that lets go of its proxy
+        for (n_sub, burst) in [(1u32, 1u32), (3, 3), (3, 12)] {
+            for how in 0..3u8 {
+                for slow in [false, true] {
+                    v.push((p3_burst(*t, vec![20, 20], n_sub, burst, how, slow), d));
+                }
+            }
+        }
+        v.push((p3_burst(*t, vec![20, 17], 3, 12, 0, true), d));
         // channels
         for two in [false, true] {
             let caps: Vec<u32> = if thorough { vec![1, 2, 4, 5, 6, 16] } else { vec![1, 4, 5] };
@@ -100,10 +109,11 @@ pub fn run(tier: Tier) -> ! {
     let mut per = Vec::new();
     let mut distinct = 0u64;
     let mut capped_any = false;
+    let mut diverged = 0u64;
     let n = cat.len();
     for (i, (spec, bound)) in cat.iter().enumerate() {
         let deadline = start + budget.mul_f64((i + 1) as f64 / n as f64).max(Duration::from_millis(300));
-        let cfg = ExploreCfg { bound: *bound, deadline: Some(deadline), ..Default::default() };
+        let cfg = ExploreCfg { bound: *bound, deadline: Some(deadline), tolerate_divergence: true, ..Default::default() };
         let max_polls = AtomicU64::new(0);
         let st = explore(&cfg, |ch: &mut Chooser| {
             executions.fetch_add(1, Ordering::Relaxed);
@@ -131,6 +141,7 @@ pub fn run(tier: Tier) -> ! {
             }
         });
         distinct += st.distinct_runs;
+        diverged += st.diverged;
         capped_any |= st.capped;
         if samples.wants() {
             samples.push(|| json!({"program": spec.name, "params": spec.params, "schedules_explored": st.distinct_runs, "deviation_bound_completed": st.bound_completed}));
@@ -138,11 +149,19 @@ pub fn run(tier: Tier) -> ! {
         per.push(json!({"program": spec.name, "params": spec.params, "deviation_bound": bound, "bound_completed": st.bound_completed, "schedules": st.distinct_runs,
             "max_choice_points": st.max_trace_len, "max_polls": max_polls.load(Ordering::Relaxed), "capped": st.capped}));
     }
+    // A replayed schedule prefix that no longer fits means the subject's behaviour depended on
+    // something the harness does not own. On the unchanged tree this does not happen (the programs
+    // are insensitive to the broker's hash iteration order). Without a violation to show for it,
+    // it is a machinery problem, not a verdict.
+    if diverged > 0 && !rep.has_violation() {
+        mcx::machinery(format!("{diverged} replayed schedule prefixes diverged (uncontrolled nondeterminism) and no violation was found"));
+    }
     let mut cov = coverage();
+    cov.insert("replays_diverged".into(), json!(diverged));
     cov.insert("evaluations".into(), json!(executions.load(Ordering::Relaxed)));
     cov.insert("distinct_nontrivial".into(), json!(distinct));
     cov.insert("rule".into(), json!("for every program instance of the catalogue: all task schedules (which ready task of broker, connections, clients, application tasks is polled next) with at most d deviations from the canonical schedule, d iterated 0..bound; distinct = distinct choice vectors at the last completed bound; every execution involves >= 2 real clients or >= 2 application tasks racing on one client"));
-    cov.insert("exhaustive".into(), json!(!capped_any));
+    cov.insert("exhaustive".into(), json!(!capped_any && diverged == 0));
     cov.insert("program_instances".into(), json!(n));
     let completed_min = per.iter().filter_map(|p| p["bound_completed"].as_u64()).min();
     cov.insert("min_deviation_bound_completed".into(), json!(completed_min));
